@@ -100,6 +100,14 @@ def write_gtf(world, path, gz=False, **kw):
 def build_db(gtf_path, db_path, complete=True):
     """gffutils database, built with IsoQuant's own converter so that the db is what IsoQuant would build"""
     import gffutils
+    import contextlib
+    import io
+    with contextlib.redirect_stderr(io.StringIO()):
+        return _build_db(gtf_path, db_path, complete)
+
+
+def _build_db(gtf_path, db_path, complete):
+    import gffutils
     if complete:
         gffutils.create_db(gtf_path, db_path, force=True, keep_order=True, merge_strategy='error',
                            sort_attribute_values=True, disable_infer_transcripts=True, disable_infer_genes=True)
